@@ -510,6 +510,7 @@ type Evidence struct {
 
 func runCheck(repo, verifDir string, opts CheckOpts, overlay map[string][]byte, writeEvidence bool) int {
 	t0 := time.Now()
+	cexSearches = 0
 	prop := opts.Prop
 	// load specs first to find the packages
 	sp0, err := LoadSpecs(repo, overlay, verifDir)
